@@ -44,7 +44,16 @@ def check(model, tier):
 
     _merge.r05_1_simplify_discipline(ctx, rule="R14.12")
     structure.r_transfer_reapply_engine(ctx, "R14.13")
+    from ..rules import sqlemit as _sqlemit
+
+    _sqlemit.r_select_hooks_get_selects(ctx, "R14.15")
     _reqeval.r_common_columns_exact(ctx, "R14.14")
+    from ..rules import commute as _commute2
+
+    from ..rules import classlevel as _classlevel
+
+    _classlevel.r_commutator_messages(ctx, "R14.M1")  # a wrong message type turns the documented EngineError into TypeError
+    _commute2.r03_1_apply_protocol(ctx)  # which engine appends, which operation object is inserted
     structure.r06_1_flags(ctx, rule="R14.8")
     from ..rules import commute as _commute
 
